@@ -30,16 +30,20 @@ FORCE_FORK = 'F'
 MERGE = 'M'
 
 FEAS_TIMEOUT_MS = 5000
-# Feasibility / entailment queries are an optimisation (pruning); with quantified assumptions in the path
-# condition z3 often cannot decide them.  Then the full query gets a small deterministic resource budget and,
-# if still undecided, the quantifier-free part of the path condition is asked instead (a weaker set of
-# assumptions: `unsat` is still sound, anything else counts as undecided = feasible / not entailed).
-QUANT_RLIMIT = 400000
 
 
-def _has_quantifier(t, _memo={}):
-    todo = [t]
+def _conjuncts(t):
+    if z3.is_and(t):
+        out = []
+        for c in t.children():
+            out.extend(_conjuncts(c))
+        return out
+    return [t]
+
+
+def _has_quantifier(t):
     seen = set()
+    todo = [t]
     while todo:
         x = todo.pop()
         i = x.get_id()
@@ -59,10 +63,6 @@ class PathState:
         self.pending = []          # alternative prefixes discovered on this run
         self.solver = z3.Solver()
         self.solver.set('timeout', FEAS_TIMEOUT_MS)
-        self.qf_solver = None      # created when the first quantified conjunct arrives
-        self._qf_dirty = False
-        self._qf_level = 0
-        self._depth = 0
         self.pc = []               # permanent conjuncts (z3 terms)
         self.scopes = []           # temporary assumptions (merge scopes)
         self.counters = {}
@@ -76,6 +76,8 @@ class PathState:
         self.used_contracts = set()
         self.used_models = set()
         self.unknown_feasibility = 0
+        self.side_conditions = []  # stack: in-range conditions collected inside quantifier bodies
+        self.fresh_log = []        # every fresh constant, in creation order (for skolemisation in quantifiers)
         self.no_fork = 0           # >0 inside quantifier bodies: a real fork is not allowed
         self.known = {}            # z3 term id -> list of (frozenset(scope ids), bool): entailed truth values
 
@@ -86,13 +88,19 @@ class PathState:
         return base if n == 0 else '%s!%d' % (base, n)
 
     def fresh_int(self, base):
-        return z3.Int(self.fresh_name(base))
+        c = z3.Int(self.fresh_name(base))
+        self.fresh_log.append(c)
+        return c
 
     def fresh_bool(self, base):
-        return z3.Bool(self.fresh_name(base))
+        c = z3.Bool(self.fresh_name(base))
+        self.fresh_log.append(c)
+        return c
 
     def fresh_str(self, base):
-        return z3.String(self.fresh_name(base))
+        c = z3.String(self.fresh_name(base))
+        self.fresh_log.append(c)
+        return c
 
     # ---- assumptions ------------------------------------------------------------
     def _scoped(self, t):
@@ -115,49 +123,19 @@ class PathState:
 
     def _add(self, t):
         self.pc.append(t)
-        self.solver.add(t)
-        q = _has_quantifier(t)
-        if self.qf_solver is None and (q or self._qf_dirty):
-            # (re)build the quantifier-free mirror from the current path condition
-            self.qf_solver = z3.Solver()
-            self.qf_solver.set('timeout', FEAS_TIMEOUT_MS)
-            self._qf_level = self._depth
-            self._qf_dirty = False
-            for old in self.pc[:-1]:
-                if not _has_quantifier(old):
-                    self.qf_solver.add(old)
-            self.solver.set('rlimit', QUANT_RLIMIT)
-        if self.qf_solver is not None and not q:
-            self.qf_solver.add(t)
-
-    def push(self):
-        self.solver.push()
-        self._depth += 1
-        if self.qf_solver is not None:
-            self.qf_solver.push()
-
-    def pop(self):
-        self.solver.pop()
-        if self.qf_solver is not None:
-            if self._depth > self._qf_level:
-                self.qf_solver.pop()
-            else:
-                # the mirror was built inside the scope being left: rebuild it at the next assumption
-                self.qf_solver = None
-                self._qf_dirty = True
-        self._depth -= 1
+        # The feasibility solver only sees quantifier-free facts: satisfiability of quantified
+        # (string) formulas is where solvers get lost; dropping facts there only over-approximates
+        # the set of explored paths, the obligations are always proved from the full `pc`.
+        for c in _conjuncts(t):
+            if not _has_quantifier(c):
+                self.solver.add(c)
 
     def check(self, *extra):
         """sat / unsat / unknown of pc + scopes + extra."""
         self.stats['feasibility_queries'] = self.stats.get('feasibility_queries', 0) + 1
         import time as _t
         t0 = _t.time()
-        assumptions = list(self.scopes) + list(extra)
-        r = self.solver.check(*assumptions)
-        if r == z3.unknown and self.qf_solver is not None:
-            self.stats['qf_fallbacks'] = self.stats.get('qf_fallbacks', 0) + 1
-            if self.qf_solver.check(*assumptions) == z3.unsat:
-                r = z3.unsat
+        r = self.solver.check(*([x for x in self.scopes if not _has_quantifier(x)] + list(extra)))
         dt = _t.time() - t0
         if dt > 1.0:
             self.stats.setdefault('slow_queries', []).append((round(dt, 2), str(r), [str(e)[:200] for e in extra]))
@@ -216,7 +194,7 @@ class PathState:
                     self._record_known(t, can_t)
             if can_t and can_f:
                 if self.no_fork:
-                    raise Unsupported('case split inside a quantifier body')
+                    raise Unsupported('case split inside a quantifier body on %s' % str(t)[:300])
                 self.pending.append(self.decisions + [False])
                 d = True
             elif can_t:
@@ -262,6 +240,8 @@ class PathState:
         k = self._lookup_known(t)
         if k is not None:
             r = 'T' if k else 'N'
+        elif _has_quantifier(t):
+            r = 'U'
         elif self.must_hold(t):
             r = 'T'
             self._record_known(t, True)
